@@ -18,6 +18,14 @@ same — or a trivially equivalent — Lean term, so that the equality obligatio
                        `tuple()` / `list()` / `len()`), `t` is not assigned again and no variable of `E` is assigned or
                        updated in place afterwards.
   canonical loops      `for t in IT: if C: raise E` (a guard loop) is translated as `if any(C for t in IT): raise E`.
+  conditional returns  `return A if c else B`  ==  `if c: return A` / `else: return B`.
+  functions as values  `(A if c else B)(args)` == `A(args) if c else B(args)`; `(lambda p: E)(a)` is beta-reduced (variable /
+                       constant arguments); `<lambda> is None` is `False`; so a local that holds one of two functions, or a
+                       callback parameter of an inlined helper, translates like the direct calls.
+  keyword dictionaries `opts = dict(k=v, …)` / `{"k": v, …}` whose only uses are `**opts` in calls is expanded into the
+                       keywords at those calls (pure values, not reassigned in between).
+  generator delegation `yield from helper(…)` with an inlinable generator helper: the helper's body, its yields being the
+                       caller's.
   tracks aliases       `x = y[0]`, `x = y`, `x = a if c else b` declared as ALIAS rules (pattern, container, getter, setter):
                        `x` is a view into the container variable; an in-place statement on `x` (a stmt rule with
                        receiver `x`) also rebinds the container through the setter.  The conditional-expression form and
@@ -95,6 +103,34 @@ class Translator2N(Translator2C):
         self._cur_fn = None
         self._inl = 0
 
+    # ------------------------------------------------------------------------------------------ expressions
+    def expr(self, node, scope):
+        if isinstance(node, ast.Call) and not any(match(pat, node, {}) for pat, _t, _f in self.r.expr):
+            f = node.func
+            # (A if c else B)(args)  ==  A(args) if c else B(args)
+            if isinstance(f, ast.IfExp):
+                a = ast.Call(func=f.body, args=node.args, keywords=node.keywords)
+                b = ast.Call(func=f.orelse, args=node.args, keywords=node.keywords)
+                new = ast.IfExp(test=f.test, body=a, orelse=b)
+                ast.copy_location(new, node)
+                ast.fix_missing_locations(new)
+                return self.expr(new, scope)
+            # (lambda p, q: E)(a, b)  ==  E[p := a, q := b]   for variable / constant arguments
+            if isinstance(f, ast.Lambda) and not node.keywords and not (
+                    f.args.vararg or f.args.kwarg or f.args.kwonlyargs or f.args.defaults or f.args.posonlyargs) \
+                    and len(f.args.args) == len(node.args) and all(isinstance(x, (ast.Name, ast.Constant)) for x in node.args):
+                table = {p.arg: (x.id if isinstance(x, ast.Name) else x) for p, x in zip(f.args.args, node.args)}
+                inner = {n.id for n in ast.walk(f.body) if isinstance(n, ast.Name)}
+                if not any(isinstance(x, ast.Name) and x.id in inner and x.id not in table for x in node.args):
+                    body = _Rename(table).visit(_copy.deepcopy(f.body))
+                    ast.fix_missing_locations(body)
+                    return self.expr(body, scope)
+        if (isinstance(node, ast.Compare) and len(node.ops) == 1 and isinstance(node.ops[0], (ast.Is, ast.IsNot))
+                and isinstance(node.left, ast.Lambda) and isinstance(node.comparators[0], ast.Constant)
+                and node.comparators[0].value is None):
+            return ("true" if isinstance(node.ops[0], ast.IsNot) else "false"), ""
+        return Translator2C.expr(self, node, scope)
+
     # ------------------------------------------------------------------------------------------ helpers to inline
     def _resolve(self, func):
         """the live python function a called expression denotes, if it may be inlined"""
@@ -126,7 +162,7 @@ class Translator2N(Translator2C):
             return True
         return any(match(cr.func, call.func, {}) for cr in self.r.calls)
 
-    def _inline(self, call, target, method, result_var, scope):
+    def _inline(self, call, target, method, result_var, scope, generator=False):
         """statements equivalent to `result_var = target(...)` (result_var None: a call statement)"""
         node, _src = source_ast(target)
         a = node.args
@@ -157,7 +193,7 @@ class Translator2N(Translator2C):
                     raise Untranslatable("helper %s called without %r" % (node.name, p))
                 bound[p] = dflt[p]
         for p, x in bound.items():
-            if not isinstance(x, (ast.Name, ast.Constant)):
+            if not isinstance(x, (ast.Name, ast.Constant, ast.Lambda)):
                 raise Untranslatable("helper %s: the argument for %r is not a variable or a constant: `%s`" % (
                     node.name, p, ast.unparse(x)))
         body = [s for s in node.body
@@ -171,11 +207,15 @@ class Translator2N(Translator2C):
             body = body[:-1]
         elif result_var is not None:
             raise Untranslatable("the value of the procedure %s is used" % node.name)
-        if any(isinstance(n, (ast.Yield, ast.YieldFrom)) for s in body for n in ast.walk(s)):
-            raise Untranslatable("helper %s is a generator" % node.name)
+        is_gen = any(isinstance(n, (ast.Yield, ast.YieldFrom)) for s in body for n in ast.walk(s))
+        if is_gen != generator:
+            raise Untranslatable("helper %s is %sa generator" % (node.name, "" if is_gen else "not "))
         self._inl += 1
         table = {}
         for p, x in bound.items():
+            if isinstance(x, ast.Lambda) and any(isinstance(n, ast.Name) and n.id == p and not isinstance(n.ctx, ast.Load)
+                                                 for s2 in body for n in ast.walk(s2)):
+                raise Untranslatable("helper %s assigns to its callback parameter %r" % (node.name, p))
             table[p] = x.id if isinstance(x, ast.Name) else x
         for s in body:
             for n in ast.walk(s):
@@ -244,6 +284,58 @@ class Translator2N(Translator2C):
             return line + self.block(rest, sc, ind, ctx)
         has_rule = (any(match(pat, st, {}) for pat, _r, _t in self.r.stmt) or any(match(pat, st, {}) for pat in self.r.skip)
                     or any(match(pat, st, {}) for pat, _t in self.r.guard))
+        # return A if c else B  ==  if c: return A  else: return B
+        if isinstance(st, ast.Return) and isinstance(st.value, ast.IfExp) and not has_rule \
+                and not any(match(pat, st.value, {}) for pat, _t, _f in self.r.expr):
+            new_if = ast.If(test=st.value.test, body=[ast.Return(value=st.value.body)], orelse=[ast.Return(value=st.value.orelse)])
+            ast.copy_location(new_if, st)
+            ast.fix_missing_locations(new_if)
+            return self.block([new_if] + rest, scope, ind, ctx)
+        # yield from helper(...)  ==  the helper's body (a generator without a rule), its yields being ours
+        if isinstance(st, ast.Expr) and isinstance(st.value, ast.YieldFrom) and isinstance(st.value.value, ast.Call) \
+                and not has_rule and not self._has_rule(st.value.value):
+            target, method = self._resolve(st.value.value.func)
+            if target is not None:
+                from .py2lean2c import _Yield
+                body = self._inline(st.value.value, target, method, None, scope, generator=True)
+                body = [_Yield().visit(b) for b in body]
+                for b in body:
+                    ast.fix_missing_locations(b)
+                return self.block(body + rest, scope, ind, ctx)
+        # opts = dict(k=v, ...)  used only as  **opts : expanded into the keywords at the calls
+        if isinstance(st, ast.Assign) and len(st.targets) == 1 and isinstance(st.targets[0], ast.Name) and not has_rule:
+            kws = None
+            v = st.value
+            if isinstance(v, ast.Call) and isinstance(v.func, ast.Name) and v.func.id == "dict" and not v.args \
+                    and all(k.arg is not None for k in v.keywords):
+                kws = [(k.arg, k.value) for k in v.keywords]
+            elif isinstance(v, ast.Dict) and v.keys and all(isinstance(k, ast.Constant) and isinstance(k.value, str) for k in v.keys):
+                kws = [(k.value, val) for k, val in zip(v.keys, v.values)]
+            if kws is not None and all(_is_pure(val) for _k, val in kws):
+                x = st.targets[0].id
+                loads = [n for s2 in rest for n in ast.walk(s2) if isinstance(n, ast.Name) and n.id == x]
+                splats = [k for s2 in rest for n in ast.walk(s2) if isinstance(n, ast.Call) for k in n.keywords
+                          if k.arg is None and isinstance(k.value, ast.Name) and k.value.id == x]
+                free = {n.id for _k, val in kws for n in ast.walk(val) if isinstance(n, ast.Name)}
+                uses = [i for i, s2 in enumerate(rest) if any(isinstance(n, ast.Name) and n.id == x for n in ast.walk(s2))]
+                span = rest[:uses[-1]] if uses else []
+                if uses and not isinstance(rest[uses[-1]], (ast.Assign, ast.AugAssign, ast.Expr, ast.Return, ast.Raise)):
+                    span = rest[:uses[-1] + 1]
+                if splats and len(loads) == len(splats) and x not in self.assigned_names(rest) \
+                        and not (free & set(self.assigned_names(span))):
+                    new_rest = _copy.deepcopy(rest)
+                    for s2 in new_rest:
+                        for n in ast.walk(s2):
+                            if isinstance(n, ast.Call):
+                                out = []
+                                for k in n.keywords:
+                                    if k.arg is None and isinstance(k.value, ast.Name) and k.value.id == x:
+                                        out += [ast.keyword(arg=a, value=_copy.deepcopy(val)) for a, val in kws]
+                                    else:
+                                        out.append(k)
+                                n.keywords = out
+                        ast.fix_missing_locations(s2)
+                    return self.block(new_rest, scope, ind, ctx)
         # an in-place statement on an alias also updates the container
         if has_rule and not getattr(st, "_alias_done", False):
             recvs = self._stmt_receiver(st) or []
